@@ -36,10 +36,7 @@ def converged (o : Opt) (active : List Hash) (explore : AL St) (reports : List (
 def Fault.none (f : Fault) : Bool :=
   !f.notReady && !f.statusFail && !f.rtFail && !f.outOfSync && !f.postLost
 
-/-- the request sequence of a cycle that leaves a shard alone -/
-def quietReqs (reported : AL St) : List Req :=
-  if reported.isEmpty then [.getStatus, .getRuntime, .postTargets [], .postExtra]
-  else [.getStatus, .getRuntime, .postExtra]
+def quietReqs := Spec.quietReqs
 
 /-- the scale-up clause of C03 on one cycle: all shards in sync, some eligible unscraped target
     that no shard has room for, more shards allowed ⇒ the requested count exceeds the current one -/
